@@ -167,6 +167,10 @@ def run(chk):
             strings.append(name + "".join(",%s:%s" % (rng.choice(params), rng.choice(values)) for _ in range(k)))
         strings.append(name + ",base:16:2")
         strings.append(name + ",")
+        # a parameter given twice: the value that is not the last one must be checked too (finding F74, repaired)
+        for p in sorted(usage.get(name, {})):
+            strings.append("%s,%s:%s,%s:%s" % (name, p, rng.choice(["0", "7", "3", "x"]), p, usage[name][p]))
+            strings.append("%s,%s:%s,%s:%s" % (name, p, usage[name][p], p, rng.choice(["0", "7", "3", "x"])))
     ops = ["ofmt " + fw.hx(s) for s in strings]
     impl = fw.run_oracle(ops, "c18f")
     model = fw.run_model(ops, "c18f")
@@ -213,6 +217,19 @@ def run(chk):
                     chk.violate("documented default value does not select the default", {"op": op, "format": sfmt}, plain.get("ok"), ia)
             if name == "tcgame" and k == "base" and v.strip().lstrip("+").isdigit() and int(v) not in (2, 16) and ok:
                 chk.violate("tcgame base outside the documented set {2,16} accepted", {"op": op, "format": sfmt}, "error", ia)
+    # a value outside the documented set is rejected wherever it stands: a string with several parameters is accepted only if
+    # each of its `key:value` parts is accepted on its own
+    tested = set(strings)
+    for sfmt in strings:
+        name, ps = sfmt.split(",")[0], sfmt.split(",")[1:]
+        if len(ps) < 2 or name not in usage or sfmt not in accepted:
+            continue
+        for part in ps:
+            single = "%s,%s" % (name, part)
+            if single in tested and single not in accepted:
+                chk.violate("a format string is accepted although one of its parameters is rejected on its own", {"format": sfmt, "part": part},
+                            "error", "accepted")
+                break
     chk.sample({"format": strings[40], "impl": impl[40], "model": model[40]})
     chk.traces += len(ops)
 
